@@ -130,7 +130,7 @@ class _Base(Contract):
     props = ("C13",)
     xcheck_n = 4
     max_paths = 6000
-    budget_s = 900
+    budget_s = 1500
     exits = ("return", "raise:SdoCommunicationError")
 
     def setup(self, w, case):
